@@ -15,6 +15,10 @@
 
 #include "format_specification.h"
 
+#ifdef CDNS_VERIF
+struct CdnsVerifProbe; // verification harness probe (read-only access to private state)
+#endif
+
 namespace CDNS {
 
     /**
@@ -41,7 +45,11 @@ namespace CDNS {
     class CdnsDecoder {
         public:
 
+#if defined(CDNS_VERIF) && defined(CDNS_VERIF_DEC_BUFFER)
+        static constexpr std::size_t BUFFER_SIZE = CDNS_VERIF_DEC_BUFFER; // scaled window for exhaustive replay
+#else
         static constexpr std::size_t BUFFER_SIZE = 65535;
+#endif
 
         /**
          * @brief Construct a new CdnsDecoder object
@@ -169,6 +177,9 @@ namespace CDNS {
         void skip_item();
 
         private:
+#ifdef CDNS_VERIF
+        friend struct ::CdnsVerifProbe;
+#endif
 
         /**
          * @brief Read the first byte of the next item in input stream. This byte contains item's
